@@ -226,6 +226,19 @@ pub enum Op {
     ProbeTuple(Vec<u32>),
     /// typed single command through `Client::command`
     ProbeSingle(u32),
+    /// typed tuple list mixing probes with commands whose replies carry a binary part:
+    /// (probe 1, readpicture pa, probe 2, readpicture pb, readpicture nothing, probe 3)
+    MixedList,
+}
+
+pub const MIXED_LIST_LINES: [&str; 6] = ["probe 1", "readpicture pa 0", "probe 2", "readpicture pb 0", "readpicture nothing 0", "probe 3"];
+
+/// how a frame with (or without) a binary part shows up in the result vector of `Op::MixedList`
+pub fn describe_art(data: Option<(&[u8], Option<&str>)>) -> String {
+    match data {
+        None => "art:none".to_string(),
+        Some((d, mime)) => format!("art:{}:{:016x}:{:?}", d.len(), hash64(&d), mime),
+    }
 }
 
 #[derive(Clone, Debug)]
@@ -251,6 +264,8 @@ pub enum FaultKind {
     ReadErr,
     WriteErr,
     Garbage,
+    /// malformed bytes without a line end, then silence (the connection stays open)
+    GarbageOpen,
     DropHandles,
 }
 
@@ -294,6 +309,11 @@ pub struct Scenario {
     /// how many ticks may be taken at points where no re-idle timer can be running
     pub loose_tick_budget: usize,
     pub drop_events_rx: bool,
+    /// the application keeps `ConnectionEvents` alive but never polls it, not even at the end
+    pub never_poll_events: bool,
+    /// every request goes through a fresh clone of the client (default: each caller keeps one
+    /// handle for all its requests)
+    pub fresh_clone_per_op: bool,
     pub connect: ConnectMode,
     pub server: ServerConfig,
     /// deliver the greeting up front (false: greeting delivery is explored like any other bytes)
@@ -327,6 +347,8 @@ impl Scenario {
             tick_anywhere: false,
             loose_tick_budget: 2,
             drop_events_rx: false,
+            never_poll_events: false,
+            fresh_clone_per_op: false,
             connect: ConnectMode::Plain,
             server: ServerConfig::default(),
             greeting_upfront: true,
@@ -358,6 +380,8 @@ impl Scenario {
             "tick_anywhere": self.tick_anywhere,
             "loose_tick_budget": self.loose_tick_budget,
             "drop_events_rx": self.drop_events_rx,
+            "never_poll_events": self.never_poll_events,
+            "fresh_clone_per_op": self.fresh_clone_per_op,
             "connect": format!("{:?}", self.connect),
             "late_probe": self.late_probe,
         })
@@ -394,6 +418,7 @@ pub enum Ev {
     ReadErr,
     WriteErr,
     Garbage,
+    GarbageOpen,
     DropHandles,
 }
 
@@ -423,11 +448,12 @@ impl Ev {
             Ev::ReadErr => "ReadErr".into(),
             Ev::WriteErr => "WriteErr".into(),
             Ev::Garbage => "Garbage".into(),
+            Ev::GarbageOpen => "GarbageOpen".into(),
             Ev::DropHandles => "DropHandles".into(),
         }
     }
     pub fn is_fault(&self) -> bool {
-        matches!(self, Ev::Close(_) | Ev::CloseRst(_) | Ev::ReadErr | Ev::WriteErr | Ev::Garbage | Ev::DropHandles)
+        matches!(self, Ev::Close(_) | Ev::CloseRst(_) | Ev::ReadErr | Ev::WriteErr | Ev::Garbage | Ev::GarbageOpen | Ev::DropHandles)
     }
 }
 
@@ -733,6 +759,14 @@ impl Chooser for NameChooser {
                 self.cursor += 1;
                 continue;
             }
+            // `Name?`: take the event if it is enabled, otherwise go on with the script
+            if let Some(opt) = n.strip_suffix('?') {
+                self.cursor += 1;
+                match enabled.iter().position(|e| e.name() == opt) {
+                    Some(i) => return Ok(i),
+                    None => continue,
+                }
+            }
             return match enabled.iter().position(|e| &e.name() == n) {
                 Some(i) => {
                     self.cursor += 1;
@@ -753,6 +787,8 @@ struct World {
     shared: Arc<Mutex<Shared>>,
     client: Option<Client>,
     events_rx: Option<ConnectionEvents>,
+    /// one long-lived handle per caller
+    handles: Vec<Arc<Client>>,
     connect_fut: Option<(Pin<Box<dyn Future<Output = Result<(Client, ConnectionEvents), String>>>>, Arc<Flag>)>,
     connect_result: Option<Result<String, String>>,
     callers: Vec<CallerState>,
@@ -779,8 +815,7 @@ struct World {
     machinery: Vec<String>,
 }
 
-fn make_op_future(client: &Client, op: &Op) -> OpFut {
-    let c = client.clone();
+fn make_op_future(c: Arc<Client>, op: &Op) -> OpFut {
     match op.clone() {
         Op::Raw(line) => Box::pin(async move {
             let r = c.raw_command(raw_from_line(&line)).await;
@@ -802,6 +837,12 @@ fn make_op_future(client: &Client, op: &Op) -> OpFut {
         Op::ProbeSingle(i) => Box::pin(async move {
             let r = c.command(Probe(i)).await;
             OpOutcome::Probes(r.map(|s| vec![s]).map_err(|e| abs_err(&e)))
+        }),
+        Op::MixedList => Box::pin(async move {
+            use mpd_client::commands::AlbumArtEmbedded as Pic;
+            let art = |a: Option<mpd_client::responses::AlbumArt>| describe_art(a.as_ref().map(|a| (&a.data[..], a.mime.as_deref())));
+            let r = c.command_list((Probe(1), Pic::new("pa"), Probe(2), Pic::new("pb"), Pic::new("nothing"), Probe(3))).await;
+            OpOutcome::Probes(r.map(|t| vec![t.0, art(t.1), t.2, art(t.3), art(t.4), t.5]).map_err(|e| abs_err(&e)))
         }),
         Op::ProbeVec(ids) => Box::pin(async move {
             let list: Vec<Probe> = ids.iter().map(|i| Probe(*i)).collect();
@@ -880,6 +921,7 @@ impl World {
                     let v = client.protocol_version().to_string();
                     self.log(Obs::Connected(v.clone()));
                     self.connect_result = Some(Ok(v));
+                    self.handles = self.callers.iter().map(|_| Arc::new(client.clone())).collect();
                     self.client = Some(client);
                     if self.scn.drop_events_rx {
                         drop(events);
@@ -927,7 +969,7 @@ impl World {
     }
 
     fn poll_events(&mut self) {
-        if self.events_ended || (self.scn.poll_events_at_end_only && !self.draining) {
+        if self.events_ended || self.scn.never_poll_events || (self.scn.poll_events_at_end_only && !self.draining) {
             return;
         }
         let Some(rx) = &mut self.events_rx else { return };
@@ -1074,6 +1116,14 @@ impl World {
         self.client.is_some()
     }
 
+    fn handle_for(&self, caller: usize) -> Arc<Client> {
+        if self.scn.fresh_clone_per_op {
+            Arc::new(self.client.as_ref().unwrap().clone())
+        } else {
+            self.handles[caller].clone()
+        }
+    }
+
     fn enabled(&self) -> Vec<Ev> {
         let (undelivered, dead) = {
             let s = self.sh();
@@ -1196,6 +1246,7 @@ impl World {
                     FaultKind::ReadErr => alts.push(Ev::ReadErr),
                     FaultKind::WriteErr => alts.push(Ev::WriteErr),
                     FaultKind::Garbage => alts.push(Ev::Garbage),
+                    FaultKind::GarbageOpen => alts.push(Ev::GarbageOpen),
                     FaultKind::DropHandles => {
                         if self.connected() && !self.handles_dropped && self.callers.iter().all(|c| c.pending.is_empty()) {
                             alts.push(Ev::DropHandles);
@@ -1262,7 +1313,7 @@ impl World {
                 let op_idx = self.callers[i].next;
                 self.callers[i].next += 1;
                 let op = self.callers[i].prog.ops[op_idx].clone();
-                let fut = make_op_future(self.client.as_ref().unwrap(), &op);
+                let fut = make_op_future(self.handle_for(i), &op);
                 let flag = Arc::new(Flag(AtomicBool::new(true)));
                 self.ops[i][op_idx].issued_step = Some(self.step);
                 self.ops[i][op_idx].issue_seq = Some(self.issue_seq);
@@ -1315,7 +1366,7 @@ impl World {
                 let op_idx = self.callers[i].next;
                 self.callers[i].next += 1;
                 let op = self.callers[i].prog.ops[op_idx].clone();
-                let fut = make_op_future(self.client.as_ref().unwrap(), &op);
+                let fut = make_op_future(self.handle_for(i), &op);
                 let flag = Arc::new(Flag(AtomicBool::new(true)));
                 self.ops[i][op_idx].issued_step = Some(self.step);
                 self.ops[i][op_idx].issue_seq = Some(self.issue_seq);
@@ -1381,15 +1432,27 @@ impl World {
                 s.s2c.extend_from_slice(b"garbage !!\n");
                 s.server.dead = true;
             }
+            Ev::GarbageOpen => {
+                // bytes that cannot begin any protocol line; no line end follows and the peer stays
+                // connected but silent
+                self.faults_used += 1;
+                self.fault = Some((ev.clone(), self.step));
+                let mut s = self.sh();
+                s.s2c.extend_from_slice(GARBAGE_OPEN);
+                s.server.dead = true;
+            }
             Ev::DropHandles => {
                 self.faults_used += 1;
                 self.fault = Some((ev.clone(), self.step));
                 self.handles_dropped = true;
+                self.handles.clear();
                 self.client = None;
             }
         }
     }
 }
+
+pub const GARBAGE_OPEN: &[u8] = b"\x00\xff";
 
 pub fn noop_waker() -> Waker {
     struct Noop;
@@ -1505,6 +1568,7 @@ async fn run_async(scn: &Scenario, chooser: &mut dyn Chooser) -> Result<Trace, S
         shared: shared.clone(),
         client: None,
         events_rx: None,
+        handles: Vec::new(),
         connect_fut: Some((connect_fut, Arc::new(Flag(AtomicBool::new(true))))),
         connect_result: None,
         callers: scn.callers.iter().map(|p| CallerState { prog: p.clone(), next: 0, pending: Vec::new() }).collect(),
@@ -1621,7 +1685,7 @@ async fn run_async(scn: &Scenario, chooser: &mut dyn Chooser) -> Result<Trace, S
                 w.callers.push(CallerState { prog: CallerProg { ops: vec![Op::Raw("late probe".into())], pipeline: false }, next: 0, pending: Vec::new() });
                 w.ops.push(vec![OpRecord { op: Op::Raw("late probe".into()), issued_step: Some(w.step), issue_seq: Some(w.issue_seq), outcome: None, done_log_pos: None, cancelled: false, issued_after_fault: w.fault.is_some() }]);
                 let ci = w.callers.len() - 1;
-                let fut = make_op_future(&c, &Op::Raw("late probe".into()));
+                let fut = make_op_future(Arc::new(c.clone()), &Op::Raw("late probe".into()));
                 w.callers[ci].next = 1;
                 w.callers[ci].pending.push(PendingOp { op_idx: 0, fut, flag: Arc::new(Flag(AtomicBool::new(true))) });
                 w.log(Obs::Ev { step: w.step, name: "LateProbe".into(), strict_tick: false });
